@@ -21,7 +21,7 @@ OUTSIDE = "preemption inside a single statement; float clocks (ints used: only +
 ASSUMPTIONS = [
     "clock stub: each read returns the previous value plus a symbolic non-negative int (monotonic clock contract)",
     "ttl_seconds is set to a symbolic positive int after construction (the code only adds and compares it)",
-    "window measured on the clock value each call itself read (the read is outside the lock in the source)",
+    "the window is measured from the first acceptance's own clock reading to the (real) time at which the second acceptance completed: the source reads the clock before taking the lock, so a call may act on a stale reading (an earlier, stricter oracle that compared the two calls' own readings raised a false alarm in the 3-thread thorough item and was corrected)",
 ]
 
 UNIT = coop.Unit(ENCODED)
@@ -35,6 +35,7 @@ class _Clock:
         self.now = 0
         self.reads = 0
         self.by_thread: dict[int, int] = {}
+        self.order = 0
 
     def __call__(self) -> int:
         d = self.deltas[self.reads] if self.reads < len(self.deltas) else 0
@@ -48,7 +49,9 @@ class _Clock:
 @coop._mark
 def _body(cache, nonce, out, idx, clock):  # a scenario thread: one call, recording (accepted, clock it read)
     r = yield from coop._cc(cache.check_and_add, nonce)
-    out[idx] = (r, clock.by_thread[idx])
+    # (accepted, clock value this call read, clock value when it returned, completion order)
+    clock.order += 1
+    out[idx] = (r, clock.by_thread[idx], clock.now, clock.order)
     return r
 
 
@@ -85,8 +88,13 @@ def _verdict(s, cache, clock, out, nonces, cap: int, ttl: int) -> bool:
     for i in range(n):
         for j in range(i + 1, n):
             if nonces[i] == nonces[j] and out[i][0] and out[j][0]:
-                ti, tj = out[i][1], out[j][1]
-                gap = tj - ti if tj >= ti else ti - tj
+                # The clock is read *before* the lock is taken, so a call may act on a stale reading.
+                # What the window guarantees is measured in real time: the second acceptance (the one
+                # that completed later) happened no earlier than `ttl` after the first call's own clock
+                # reading — the entry it left expires at (its reading + ttl) and only a sweep by a
+                # caller whose clock had reached that value removes it.
+                a, b = (i, j) if out[i][3] < out[j][3] else (j, i)
+                gap = out[b][2] - out[a][1]
                 if gap < ttl:
                     distinct = len(set(nonces[:n]))
                     if not (cap < distinct):
@@ -116,13 +124,15 @@ def _replay_threads(n: int, nonces_sel, cap: int, ttl: int, d: list[int], first:
     real = rp.NonceCache(ttl_seconds=1, capacity=cap, clock=real_clock)
     real.ttl_seconds = ttl
     rout: list = [None] * n
+    order = [0]
     max_len = [0]
 
     def body(i: int):
         def run():
             idx_of[threading.get_ident()] = i
             r = real.check_and_add(nonces[i])
-            rout[i] = (r, seen.get(i, 0))
+            order[0] += 1
+            rout[i] = (r, seen.get(i, 0), max(seen.values()) if seen else 0, order[0])
             max_len[0] = max(max_len[0], len(real._entries))
             return r
 
